@@ -29,6 +29,7 @@ from enum import Enum
 from typing import Any, Optional
 from ..core.symbols.symbols import DimensionSymbol, Function
 from ..core.dimensions import print_dimension
+from ..core.processors import reset_sympy_evaluation
 from .printer_code import code_str
 from .printer_latex import latex_str
 from ..core.operations.symbolic import Symbolic
@@ -275,7 +276,11 @@ def find_members_and_functions(
 
     compiled = compile(module, "string", "exec")
     context: dict[str, Any] = {}
-    exec(compiled, {}, context)  # pylint: disable=exec-used
+    try:
+        exec(compiled, {}, context)  # pylint: disable=exec-used
+    finally:
+        # patched module disables SymPy evaluation, do not leave it disabled if the module fails
+        reset_sympy_evaluation()
 
     members: list[MemberWithDoc] = []
     for member_name in member_names:
